@@ -18,7 +18,9 @@ RULE = (
     "under all options. distinct = blake2b(payload); non-trivial = MSM message with >= 1 cell, or a non-MSM message "
     "with >= 3 attributes"
 )
-ASSUMPTIONS = ["option value 0 is only required to leave non-label attributes untouched (its label style is not specified)"]
+ASSUMPTIONS = ["option value 0 is only required to leave non-label attributes untouched (its label style is not specified)",
+               "under the frequency-band option a signal with a pinned RINEX code is not labelled with that RINEX code "
+               "(band labels and RINEX observation codes are different vocabularies)"]
 GATES = ["msm_compared", "nonmsm_compared", "entrypoints_compared", "label_function_checked", "cells_compared",
          "live_readers_compared"]
 
@@ -121,6 +123,12 @@ def check(ctx, identity, payload, meta, params):
                     ctx.violation("rinex-option-label", f"{identity}: under labelmsm=1 (parsed in option order {order}) "
                                   f"signal ID {gid} of {refmsm.CONSTELLATION[pre]} is labelled {lab!r}, not its RINEX code",
                                   params)
+                    return
+                if opt == 2 and gid in refmsm.SIG_STRICT[pre] and lab == refmsm.SIG_STRICT[pre][gid]:
+                    # the frequency-band option must not hand out the RINEX observation code itself
+                    ctx.violation("band-option-yields-rinex-code", f"{identity}: under labelmsm=2 signal ID {gid} of "
+                                  f"{refmsm.CONSTELLATION[pre]} is labelled {lab!r}, which is its RINEX code: the option "
+                                  f"has no effect for this constellation", params)
                     return
                 key = (opt, pre, gid)
                 old = ctx.labelmap.setdefault(key, lab)
